@@ -36,6 +36,8 @@ def make_tracer(name, events, guards=True, recorder=None, extra_attrs=None):
 
 def observe(env, exc, rec_name="_rec"):
     def ser(v, d=0):
+        if isinstance(v, int) and not isinstance(v, bool) and v.bit_length() > 256:
+            return "<int of %d bits, %d mod 1000003>" % (v.bit_length(), v % 1000003)
         if isinstance(v, (bool, int, str, float, type(None))):
             return v if not isinstance(v, float) else repr(v)
         if isinstance(v, (list, tuple)) and d < 3:
